@@ -529,6 +529,15 @@ var upstreamSchemes = []struct {
 	{"stdio", "?", false, false},
 	{"tcp4", "?", false, false},
 	{"", "", false, false},
+	// a documented base with an undocumented or mistyped '+' variant is an unknown scheme
+	{"stdin+tsl", "", false, false},
+	{"stdin+ssl", "", false, false},
+	{"unix+ssl", "", false, false},
+	{"dns+tls", "", false, false},
+	{"https+tls", "", false, false},
+	{"http+ssl", "", false, false},
+	{"udp+dtls", "", false, false},
+	{"tcp+", "", false, false},
 }
 
 type upstreamCase struct {
